@@ -63,7 +63,7 @@ func c04store(ev *verifev.Run, root string, def uint) {
 	// unsupported and unreadable records (internal error => denial on every frontend)
 	must(os.WriteFile(filepath.Join(dir, "dora.user"), []byte("argon2id:1:77:AAAA:AAAA\n"), 0600))
 	must(os.Mkdir(filepath.Join(dir, "edir.user"), 0700))
-	names := []string{"bob", "Bob", "bob ", "BOB", "nob", "bob@realm", "al@x.org", "al", "dora", "edir", "colon", "colon2", "uni", "nul", "p255", "p256", "p257", "esc", "sp", "carl", "admin1", ""}
+	names := []string{"bob", "Bob", "bob ", "BOB", "nob", "bob@realm", "al@x.org", "al", "al@x.org@corp", "bob@a@b", "al@x.org@", "@bob", "bob@", "@", "al@@x.org", "dora", "edir", "colon", "colon2", "uni", "nul", "p255", "p256", "p257", "esc", "sp", "carl", "admin1", ""}
 	var pws []string
 	seen := map[string]bool{}
 	addpw := func(p string) {
